@@ -182,6 +182,15 @@ func OutcomeViolation(o *simrt.Outcome) *Violation {
 	return nil
 }
 
+// NoProgress is the violation reported when a run exhausts its step budget:
+// every scenario is finite and every operation of the code under test completes
+// in a bounded number of steps once the others stop interfering, so a run that
+// is still going after a budget several times the longest legitimate run is a
+// livelock (a retry loop that cannot succeed, a spin on a flag nobody sets).
+func NoProgress(o *simrt.Outcome) *Violation {
+	return &Violation{Signature: "no-progress", Detail: fmt.Sprintf("the run was still going after %d steps (step budget); tasks alive: %v", o.Steps, o.Alive)}
+}
+
 // Trouble is harness trouble: reported with exit status 2, never as a violation.
 type Trouble struct{ Msg string }
 
